@@ -77,6 +77,12 @@ func (s *Sweeper) sweep(ctx context.Context) error {
 	retention := s.conf.RetentionDuration()
 	cutoff := time.Now().Add(-retention)
 	cutoffTS := header.TimestampFromTime(cutoff)
+	if cutoff.Before(time.Unix(0, 0)) {
+		// The retention is longer than the time since the UNIX epoch, so
+		// nothing can be stale yet. A negative time would wrap around to a
+		// huge unsigned timestamp and make every deleted entry look stale.
+		cutoffTS = 0
+	}
 
 	s.l.WithField("cutoff", cutoff).Debug("Sweep started")
 	defer s.l.Debug("Sweep finished")
